@@ -46,7 +46,7 @@ Qed.
 Definition two_candidates : candidates_t :=
   [("Circle", [("kind", "circle"); ("type", "c")]); ("Square", [("kind", "square"); ("type", "s")])].
 Theorem infer_unsorted_two_candidates_refuted_proof :
-  exists c st sf sf', Permutation sf sf' /    inferDiscriminatorField_unsorted c st sf <> inferDiscriminatorField_unsorted c st sf'.
+  exists c st sf sf', Permutation sf sf' /\ inferDiscriminatorField_unsorted c st sf <> inferDiscriminatorField_unsorted c st sf'.
 Proof.
   exists two_candidates, ["Circle"; "Square"], ["kind"; "type"], ["type"; "kind"].
   split; [apply perm_swap|]. vm_compute. discriminate.
@@ -103,7 +103,7 @@ Theorem ComposeBuilders_unsorted_perm_proof : forall B (kept : list B) compose s
   Permutation (ComposeBuilders_unsorted kept compose seq) (ComposeBuilders_unsorted kept compose seq').
 Proof. intros. unfold ComposeBuilders_unsorted. apply Permutation_app_head. now apply append_each_perm. Qed.
 Theorem ComposeBuilders_unsorted_order_refuted_proof :
-  exists (kept : list string) compose seq seq', Permutation seq seq' /    ComposeBuilders_unsorted kept compose seq <> ComposeBuilders_unsorted kept compose seq'.
+  exists (kept : list string) compose seq seq', Permutation seq seq' /\ ComposeBuilders_unsorted kept compose seq <> ComposeBuilders_unsorted kept compose seq'.
 Proof.
   exists [], (fun e => [(fst e ++ ".Panel")%string]), [("timeseries", []); ("table", [])], [("table", []); ("timeseries", [])].
   split; [apply perm_swap|]. vm_compute. discriminate.
